@@ -113,6 +113,40 @@ for m in maps:
     if done: break
 if not done and dec(None, maps[0]) is not None:
     res = {'confirmed': True, 'input': {'bits': None}, 'recovered': dec(None, maps[0])}
+# ---- (b) db_spec / get_spec_* of the real BatchFormatVersion class (its module-level import of the client is not needed)
+if not res['confirmed']:
+    src = open(os.path.join(os.environ['VERIF_REPO'], 'batch/batch/batch_format_version.py')).read()
+    tree = ast.parse(src)
+    cls = [n for n in tree.body if isinstance(n, ast.ClassDef) and n.name == 'BatchFormatVersion']
+    ns = {'Optional': typing.Optional, 'Tuple': typing.Tuple, 'Job': None}
+    exec(compile(ast.Module(body=cls, type_ignores=[]), 'bfv-extract', 'exec'), ns)
+    BFV = ns['BatchFormatVersion']
+    secret_sets = [None, [], [{'namespace': 'n', 'name': 's', 'mount_path': '/p'}], [{'namespace': 'n', 'name': 's', 'mount_path': '/p', 'mount_in_copy': False}, {'namespace': 'm', 'name': 't', 'mount_path': '/q', 'mount_in_copy': True}]]
+    sas = [None, {'namespace': 'ns', 'name': 'sa'}]
+    ress = [{'preemptible': True, 'storage_gib': 10}, {'machine_type': 'n1-standard-4', 'preemptible': False, 'storage_gib': 375}]
+    files = [None, [], [('a', 'b')]]
+    for v, sec, sa, rs, fin, fout in itertools.product(range(2, 8), secret_sets, sas, ress, files, files):
+        spec = {'resources': dict(rs)}
+        if sec is not None: spec['secrets'] = [dict(x) for x in sec]
+        if sa is not None: spec['service_account'] = dict(sa)
+        if fin is not None: spec['input_files'] = list(fin)
+        if fout is not None: spec['output_files'] = list(fout)
+        b = BFV(v)
+        want = {
+            'secrets': ([dict(x, mount_in_copy=bool(x.get('mount_in_copy', False))) for x in sec] if sec else None),
+            'service_account': sa,
+            'has_input_files': bool(fin), 'has_output_files': bool(fout),
+            'machine_spec': ({'machine_type': rs['machine_type'], 'preemptible': rs['preemptible'], 'storage_gib': rs['storage_gib']} if ('machine_type' in rs and v >= 5) else None),
+        }
+        try:
+            stored = json.loads(json.dumps(b.db_spec(spec)))
+            got = {'secrets': b.get_spec_secrets(stored), 'service_account': b.get_spec_service_account(stored), 'has_input_files': b.get_spec_has_input_files(stored), 'has_output_files': b.get_spec_has_output_files(stored), 'machine_spec': b.get_spec_machine_spec(stored)}
+        except Exception as e:
+            res = {'confirmed': True, 'input': {'format_version': v, 'spec': spec}, 'raised': repr(e)}
+            break
+        if got != want:
+            res = {'confirmed': True, 'input': {'format_version': v, 'spec': spec}, 'stored': stored, 'read_back': got, 'expected': want}
+            break
 print(json.dumps(res))
 '''
 
